@@ -600,7 +600,8 @@ const PROPS: &[&str] = &[
 const UNITS: &[&str] = &["px", "rpx", "rpx", "em", "rem", "vw", "s", "deg", "e", "E", "e-x", "RPX", "x", "fr", "\u{b5}m", "--u"];
 const PSEUDO_FN: &[&str] = &["not", "is", "where", "has", "host", "slotted", "nth-child", "nth-last-child", "host-context", "matches"];
 const PSEUDO: &[&str] = &["hover", "first-child", "root", "host", "before", "focus-within"];
-const VAL_FN: &[&str] = &["calc", "calc", "var", "min", "max", "clamp", "rgb", "translate", "url", "f", "env", "attr", "CALC"];
+const VAL_FN: &[&str] = &["calc", "calc", "var", "min", "max", "clamp", "rgb", "translate", "url", "f", "env", "attr", "CALC",
+    "round", "hypot", "abs", "mod", "-webkit-calc", "calc-size", "atan2", "Pow"];
 
 fn unesc(s: &str) -> String {
     // the tables above write non-ASCII as \u{..} and CSS backslashes as \\ to stay readable
@@ -847,13 +848,13 @@ impl<'a> Gen<'a> {
             }
             11..=13 if depth < 3 => {
                 let mut f = *self.rng.pick(VAL_FN);
-                if self.clean && (f == "min" || f == "max" || f == "clamp" || f == "CALC") {
+                if self.clean && f != "calc" && matches!(f, "min" | "max" | "clamp" | "CALC" | "round" | "hypot" | "abs" | "mod" | "-webkit-calc" | "calc-size" | "atan2" | "Pow") {
                     f = "calc";
                 }
                 if f == "url" {
                     return format!("url({})", self.string());
                 }
-                if f == "calc" || f == "min" || f == "max" || f == "clamp" || f == "CALC" {
+                if matches!(f, "calc" | "min" | "max" | "clamp" | "CALC" | "round" | "hypot" | "abs" | "mod" | "-webkit-calc" | "calc-size" | "atan2" | "Pow") {
                     self.feat(if f == "calc" { "calc" } else { "math-fn" });
                     format!("{}({}{}{})", f, self.ows(), self.calc_sum(depth + 1), self.ows())
                 } else if f == "var" || f == "env" {
@@ -1337,6 +1338,8 @@ const SEEDS: &[&str] = &[
     ":host { color: red }\n@media x { :host { a: b } .q{} :host(.a) {} :host .b {} }",
     ".a { w: min(100% - 20rpx, 50px); h: calc((1px + 2px) * 3) }",
     ".a { w: calc(1px + var(--x, 2px + 1rpx)); h: min(env(a, 1px - 2px), translate(3px + var(--y, 1px + 1px))) }",
+    ".a{w:round(up, 1px + 2px, 3px);h:hypot(1px + 1rpx);x:-webkit-calc(1px + 2px);y:abs(1px - 2px);z:mod(5px + 1px, 2px);v:CALC-SIZE(auto, size + 2px)}",
+    "@import \"./x\" supports(selector(.a *));\n@import url(y) supports(selector(a :has(.b #c [d] :e))) screen;\n@import 'z' layer(l.m) supports(selector(.p > .q ~ * .r));\n.k{}",
     "/*x*/ .a /*y*/ .b{color:red}\n@media (min-width: 2rpx) { .c/*k*/.d { x: 1rpx } }",
     ".\u{1f600}a \u{540d}.b{ --\u{e9}: '\u{1f600}' 1rpx }\n.c{}",
     ".a{b:c",
@@ -1393,6 +1396,17 @@ pub fn run(tier: &str, seed: u64, args: &[String], out: &mut Out) {
         let css = unesc(s).replace("\\n", "\n");
         for o in base_opts.iter() {
             emit(out, &css, o, "seed");
+        }
+    }
+    // 1b. class selectors under deeply nested selector functions / prelude blocks (depth 33, 40, 64): no depth limit
+    if chunk == 0 {
+        for depth in [33usize, 40, 64] {
+            let nested = format!(".x{}.a, .b{}{{w:1rpx}}", ":not(".repeat(depth), ")".repeat(depth));
+            let scoped = format!("@layer l{{@scope {}.a .b{}{{.c{{}}}}}}", "(".repeat(depth), ")".repeat(depth));
+            for o in base_opts.iter() {
+                emit(out, &nested, o, "seed");
+                emit(out, &scoped, o, "seed");
+            }
         }
     }
     // 2. generated
